@@ -25,6 +25,12 @@ def same(a: Any, b: Any) -> bool:
     return bool(a == b)
 
 
+def blocking(obs: Obs) -> Optional[str]:
+    if obs.rc.blocking:
+        return "engine_blocks_event_loop:%s" % obs.rc.blocking[0]
+    return None
+
+
 def hang(obs: Obs) -> Optional[str]:
     if obs.kind == "deadlock":
         return "deadlock"
